@@ -76,6 +76,8 @@ pub const NODE_FIELDS: &[FDef] = &[
     f("leaf", "Leaf", Ret::Leaf, Idiom::Res, false, false, 24),
     f("ritems", "[Int]", Ret::Int, Idiom::Res, false, false, 25),
     f("ritemsReq", "[Int!]!", Ret::Int, Idiom::Res, false, false, 26),
+    // more than 30 items: futures-util's join switches from its small-set variant to FuturesOrdered
+    f("crowd", "[Node]", Ret::Node, Idiom::Res, false, false, 27),
 ];
 
 /// static fields whose list items are `Result`s and can fail one by one
@@ -391,6 +393,9 @@ impl NodeData {
         NodeData { id: (h(self.id, salt * 64 + idx + 1) % 50_000) as i32 + 2, ev: self.ev }
     }
     pub fn len(&self, salt: u32) -> u32 {
+        if salt == 27 {
+            return 31 + h(self.id, salt + 700) % 4;
+        }
         h(self.id, salt + 700) % 4
     }
     pub fn is_node(&self, salt: u32, idx: u32) -> bool {
@@ -629,6 +634,11 @@ macro_rules! node_fields {
                 run(ctx, $name, "ritems", d).await?;
                 let path = path_of(ctx);
                 Ok(Some((0..d.len(25)).map(|i| Some(static_item(d, 25, i, &path, "ritems"))).collect()))
+            }
+            async fn crowd(&self, ctx: &Context<'_>) -> Result<Option<Vec<Option<Node>>>> {
+                let d = self.data();
+                run(ctx, $name, "crowd", d).await?;
+                Ok(Some((0..d.len(27)).map(|i| Some(Node(d.child(27, i)))).collect()))
             }
             async fn ritems_req(&self, ctx: &Context<'_>) -> Result<Vec<Result<i32>>> {
                 let d = self.data();
